@@ -12,6 +12,7 @@ import (
 	"os"
 	"path/filepath"
 	"runtime"
+	"runtime/debug"
 	"strings"
 	"sync"
 
@@ -173,6 +174,9 @@ func runC08(r *ev.Run) {
 		wg.Add(1)
 		go func(w int) {
 			defer wg.Done()
+			// a read through a stale page number can touch the mapping past the end of a shrunk file:
+			// make that a recoverable panic of this goroutine instead of the death of the process
+			debug.SetPanicOnFault(true)
 			p, err := StartPeer()
 			if err != nil {
 				r.Harness("peer: %v", err)
@@ -269,7 +273,19 @@ func c08Sequence(r *ev.Run, p *Peer, dir string, w, n int, baseName string, base
 			}
 			for rep := 0; rep < 2; rep++ {
 				r.Trans(2)
-				got, err := LittleDump(h.H, h.D)
+				var got *Dump
+				var err error
+				var low string
+				var lerr error
+				if p := Safely(func() {
+					got, err = LittleDump(h.H, h.D)
+					if err == nil {
+						low, lerr = lowDump(h.D)
+					}
+				}); p != nil {
+					r.Violation("C08:read-crashes:"+age+":"+c08Last(names, step), fmt.Sprintf("handle opened after step %d, read after %v crashes: %v", openedAt[hi], names[:step], p), a2)
+					return
+				}
 				if err != nil {
 					r.Violation("C08:read-error:"+age+":"+c08Last(names, step), fmt.Sprintf("handle opened after step %d, read after %v: %v", openedAt[hi], names[:step], err), a2)
 					break
@@ -278,8 +294,7 @@ func c08Sequence(r *ev.Run, p *Peer, dir string, w, n int, baseName string, base
 					r.Violation("C08:stale-or-wrong:"+age+":"+c08Last(names, step), fmt.Sprintf("handle opened after step %d, read #%d after %v differs from SQLite: %s", openedAt[hi], rep+1, names[:step], firstLineDiff(gs, want)), a2)
 					break
 				}
-				low, err := lowDump(h.D)
-				if err != nil {
+				if err = lerr; err != nil {
 					r.Violation("C08:low-read-error:"+age+":"+c08Last(names, step), fmt.Sprintf("handle opened after step %d, low level read after %v: %v", openedAt[hi], names[:step], err), a2)
 					break
 				}
